@@ -29,10 +29,45 @@ def plan(tier, seed):
     # references over several fixpoint rounds); short inputs only, the weight is on FIRST and on membership of short words
     m = 4000 if tier == "quick" else 40000
     specs += [{"seed": seed, "chunk": 100000 + i, "n": 200, "L": 3 if tier == "quick" else 4, "big": True} for i in range(m // 200)]
+    # wide grammars: 4-5 terminals (lookahead sets that overlap without being equal), 2-4 non-terminals, inputs up to length 4
+    w = 3000 if tier == "quick" else 30000
+    specs += [{"seed": seed, "chunk": 200000 + i, "n": 150, "L": 4 if tier == "quick" else 5, "big": "wide"} for i in range(w // 150)]
+    # shared-prefix grammars: several alternatives start with the same non-terminal and continue differently, so one state holds
+    # items that wait for the same non-terminal with different, overlapping lookahead sets
+    q = 3000 if tier == "quick" else 30000
+    specs += [{"seed": seed, "chunk": 300000 + i, "n": 150, "L": 4 if tier == "quick" else 5, "big": "prefix"} for i in range(q // 150)]
     return specs
 
 
 def gen(rnd, big=False):
+    if big == "prefix":
+        nnt = rnd.randint(3, 4)
+        nt = rnd.randint(3, 5)
+        T = lambda: ("t", rnd.randint(1, nt))
+        rules = []
+        lead = 1
+        for _ in range(rnd.randint(2, 3)):
+            tail = tuple(rnd.choice([T(), T(), ("n", rnd.randint(2, nnt - 1))]) for _ in range(rnd.randint(0, 2)))
+            rules.append((0, (("n", lead),) + tail))
+        if rnd.random() < 0.3:
+            rules.append((0, (T(),)))
+        for _ in range(rnd.randint(1, 2)):
+            rules.append((lead, tuple(T() for _ in range(rnd.randint(1, 2)))))
+        for a in range(2, nnt):
+            for _ in range(rnd.randint(1, 3)):
+                rules.append((a, rnd.choice([(), (T(),), (T(),), (T(), T()), (("n", lead),)])))
+        return nnt, nt, rules
+    if big == "wide":
+        nnt = rnd.randint(2, 4)
+        nt = rnd.randint(4, 5)
+        rules = []
+        for a in range(nnt):
+            for _ in range(rnd.randint(1, 3)):
+                k = rnd.choice([1, 1, 2, 2, 3, 3])
+                rhs = tuple((("t", rnd.randint(1, nt)) if rnd.random() < 0.5 else ("n", rnd.randrange(nnt))) for _ in range(k))
+                if (a, rhs) not in rules:
+                    rules.append((a, rhs))
+        return nnt, nt, rules
     if big:
         nnt = rnd.randint(4, 6)
         nt = rnd.randint(1, 2)
@@ -97,6 +132,8 @@ def _work(spec):
         prefix = rnd.randint(0, 1)
         maxt = max([s[1] for l, r in rules for s in r if s[0] == "t"] + [0])
         lim = L_ if maxt <= 2 else min(L_, 5 if L_ <= 5 else 6)
+        if maxt >= 4:
+            lim = min(lim, 4 if L_ <= 4 else 5)
         inputs = [list(w) for n in range(0, lim + 1) for w in itertools.product(range(1, maxt + 1), repeat=n)] if maxt else [[]]
         opts = [("g", "%d %d %d" % (nnt, prefix, 0))]
         for l, r in rules:
